@@ -13,8 +13,8 @@ git diff -- htp > "$OUT/patch.diff"
 DEMO=$(ls seed_demo.c seed_demo.cpp 2>/dev/null | head -1)
 cp "$DEMO" "$OUT/" ; cp seed_meta.json "$OUT/meta.json" 2>/dev/null
 build_demo() {
-  if [ "${DEMO##*.}" = "cpp" ]; then g++ -D_GNU_SOURCE -I"$S" -I"$S/htp" "$DEMO" "$S/htp/.libs/libhtp.a" -lz -o seed_demo_bin 2>&1 | tail -3
-  else gcc -std=gnu99 -D_GNU_SOURCE -I"$S" -I"$S/htp" "$DEMO" "$S/htp/.libs/libhtp.a" -lz -o seed_demo_bin 2>&1 | tail -3; fi
+  if [ "${DEMO##*.}" = "cpp" ]; then g++ -D_GNU_SOURCE -I"$S" -I"$S/htp" "$DEMO" "$S/htp/.libs/libhtp.a" -lz -pthread -o seed_demo_bin 2>&1 | tail -3
+  else gcc -std=gnu99 -D_GNU_SOURCE -I"$S" -I"$S/htp" "$DEMO" "$S/htp/.libs/libhtp.a" -lz -pthread -o seed_demo_bin 2>&1 | tail -3; fi
 }
 echo "== with change: make check"
 make check >/dev/null 2>&1; T1=$(grep -c 'PASSED  \] 341 tests' test/test_all.log)
